@@ -148,6 +148,10 @@ def job_scalar(cfg):
     cases.append(("grad(u).A.grad(v)", MatrixType.rigi,
                   lambda kk, pp, AA, f: BiLinearForm(lambda u, v: (u.grad @ AA).dot(v.grad)),
                   lambda kk, pp, AA, gg, f: Bilinear.GradU_A_GradV(gg, np.asarray(AA), matrixType=MatrixType.rigi)))
+    # 4b. the same tensor applied from the LEFT to the test gradient (plain matrix @ field: the reflected operator): grad(u) . (A grad(v))
+    cases.append(("grad(u).(A @ grad(v))", MatrixType.rigi,
+                  lambda kk, pp, AA, f: BiLinearForm(lambda u, v: u.grad.dot(np.asarray(AA) @ v.grad)),
+                  lambda kk, pp, AA, gg, f: Bilinear.GradU_A_GradV(gg, np.asarray(AA), matrixType=MatrixType.rigi)))
     # 5. position-dependent reaction
     def op5(kk, pp, AA, gg, f):
         x, y, z = f.Get_coords()
